@@ -157,6 +157,11 @@ def r1(ctx):
             [norm(a) for a in c.args] == ["client"] + [norm(e) for e in loop[0].target.elts]
         ctx.check(ok, "C10.R1", run, c, "handle_message(client, seqnum, msg) for each message of that client's queue", line=c.lineno)
         if ok:
+            trys = enclosing_trys(c)
+            inside = bool(trys) and any(p is loop[0] for p in _parents(trys[0], run.node)) and any(handler_catches(h) for h in trys[0].handlers)
+            ctx.check(inside, "C10.R1", run, "the try/except around handle_message is inside the per-message loop",
+                      "an error raised for one message must neither skip the client's remaining messages nor the reset of the queue (they would be delivered again with the next datagram)",
+                      witness=norm(trys[0])[:120] if trys else None, line=c.lineno)
             src = resolve_arg(run, ast.Name(id="client", ctx=ast.Load()), c)
             ctx.check(norm(src) == "self.ctxt.connections[addr]", "C10.R1", run, "the message's client is the connected client of the datagram's address", witness=norm(src), line=c.lineno)
             from .capacity import _block_of
